@@ -1,10 +1,11 @@
 (** Property C01 — the Kemeny score equals the generalized pairwise-penalty definition.
-    Status: the theorems below are proved; the full equality
-      [get_kemeny_score s D c = Ok (kemeny_spec s D c)] (theorem name reserved: C01_kemeny_impl_correct)
-    is decided, in this version, by the correspondence check only (model = implementation = spec on
-    every explored case); its proof needs the counting lemmas for s_1[2..5], s_2[3], s_2[5] and the
-    range recursion on top of [merge_correct]. *)
-From Corankco Require Import Prelude Scheme Rank KemenySpec KemenyMerge KemenyImpl KemenyProof.
+    Status: proved in full for the model of [get_kemeny_score] ([C01_kemeny_impl_correct]): for every
+    scheme satisfying the documented relations, every duplicate-free candidate and dataset, the counting
+    implementation (bucket ids, sort, merge-sort inversion count, 8 counters, dot product with the
+    penalty vectors) returns exactly the sum over rankings and unordered pairs of the penalty of the
+    definition, or refuses exactly when the candidate lacks a dataset element.  The model is tied to
+    the Python code by the correspondence check of harness/check_C01.py. *)
+From Corankco Require Import Prelude Scheme Rank KemenySpec KemenyMerge KemenyImpl KemenyProof KemenyCount.
 From Coq Require Import Sorting.Sorted.
 Local Open Scope Z_scope.
 
@@ -31,3 +32,32 @@ Print Assumptions C01_merge_partial.
 Theorem C01_spec_nonneg : forall s D c, nonneg s -> 0 <= kemeny_spec s D c.
 Proof. exact kemeny_spec_nonneg. Qed.
 Print Assumptions C01_spec_nonneg.
+
+(** the main statement *)
+Theorem C01_kemeny_impl_correct : forall s D c,
+  relations s -> NoDup (elems c) ->
+  (forall r, In r D -> NoDup (elems r)) ->
+  (forall r x, In r D -> ranked r x -> ranked c x) ->
+  get_kemeny_score s D c = Ok (kemeny_spec s D c).
+Proof. exact get_kemeny_score_correct. Qed.
+Print Assumptions C01_kemeny_impl_correct.
+
+(** ... and with the refusal: the function is characterised on every well-formed input *)
+Theorem C01_kemeny_impl_total : forall s D c,
+  relations s -> NoDup (elems c) -> (forall r, In r D -> NoDup (elems r)) ->
+  (get_kemeny_score s D c = Ok (kemeny_spec s D c) /\ forall r x, In r D -> ranked r x -> ranked c x) \/
+  (get_kemeny_score s D c = Err InvalidRankings /\ exists r x, In r D /\ ranked r x /\ ~ ranked c x).
+Proof. exact get_kemeny_score_total. Qed.
+Print Assumptions C01_kemeny_impl_total.
+
+(** non-vacuity: a scheme with the relations, a tied candidate, a dataset with ties and a missing element *)
+Example C01_nonvacuous :
+  let s := mkS 0 8000 8000 0 8000 0 8000 8000 0 0 0 0 in
+  let c := [[1; 2]; [3]; [4]]%nat in let D := [[[3]; [1; 4]]; [[2]; [1]]]%nat in
+  relations s /\ NoDup (elems c) /\ (forall r, In r D -> NoDup (elems r)) /\
+  (forall r x, In r D -> ranked r x -> ranked c x) /\ get_kemeny_score s D c = Ok 40000.
+Proof.
+  cbv zeta. split; [unfold relations; cbn; lia|]. split; [repeat constructor; cbn; intuition lia|].
+  split; [intros r [<-|[<-|[]]]; repeat constructor; cbn; intuition lia|].
+  split; [intros r x [<-|[<-|[]]]; unfold ranked; cbn; intuition lia|]. vm_compute. reflexivity.
+Qed.
